@@ -1,6 +1,7 @@
 package harness
 
 import (
+	"encoding/json"
 	"fmt"
 	"os"
 	"reflect"
@@ -46,6 +47,9 @@ type c09Case struct {
 	// Pause (mux): Pause[k] milliseconds of real time pass before turn k (the scripted connection has no
 	// clock; only the server's own idea of time can make this matter).  The session alone is not paused.
 	Pause []int `json:"pause,omitempty"`
+	// CacheAlone (the scale test): scripts that differ in nothing but their session id are run alone once;
+	// the others' expected transcripts are that one's with their own session id in the reply headers
+	CacheAlone bool `json:"cache_alone,omitempty"`
 }
 
 // c09Reply is what a session observes for one request.
@@ -360,6 +364,7 @@ func runC09(t failer, c c09Case) (overlap bool) {
 			sess[i] = newC09Session(sc)
 		}
 		started, finished := map[int]bool{}, map[int]bool{}
+		openNow := 0 // sessions that have started and not finished
 		for k := 0; k < len(c.Order); k++ {
 			i := c.Order[k]
 			if k < len(c.Pause) && c.Pause[k] > 0 {
@@ -379,9 +384,13 @@ func runC09(t failer, c c09Case) (overlap bool) {
 					got[i] = append(got[i], sess[i].replyOf(pkts, rest, closed, key))
 					got[j] = append(got[j], sess[j].replyOf(pkts, rest, closed, key))
 					for _, x := range []int{i, j} {
-						started[x] = true
-						if sess[x].next >= len(c.Scripts[x].Pkts) {
+						if !started[x] {
+							started[x] = true
+							openNow++
+						}
+						if sess[x].next >= len(c.Scripts[x].Pkts) && !finished[x] {
 							finished[x] = true
+							openNow--
 						}
 					}
 					overlap = true
@@ -397,17 +406,15 @@ func runC09(t failer, c c09Case) (overlap bool) {
 				continue
 			}
 			got[i] = append(got[i], r)
-			started[i] = true
-			if sess[i].next >= len(c.Scripts[i].Pkts) {
+			if !started[i] {
+				started[i] = true
+				openNow++
+			}
+			if sess[i].next >= len(c.Scripts[i].Pkts) && !finished[i] {
 				finished[i] = true
+				openNow--
 			}
-			open := 0
-			for k := range started {
-				if !finished[k] {
-					open++
-				}
-			}
-			if open >= 2 {
+			if openNow >= 2 {
 				overlap = true
 			}
 		}
@@ -468,8 +475,31 @@ func runC09(t failer, c c09Case) (overlap bool) {
 	if e := env.stop(); e != nil {
 		t.Fatalf("%v", e)
 	}
+	aloneCache := map[string][]c09Reply{}
 	for i, sc := range c.Scripts {
-		want, err := c09Alone(c.World, sc)
+		var want []c09Reply
+		var err error
+		ck := ""
+		if c.CacheAlone {
+			anon := sc
+			anon.Session = 0
+			b, _ := json.Marshal(anon)
+			ck = string(b)
+		}
+		if cached, ok := aloneCache[ck]; ok && c.CacheAlone {
+			sid := fmt.Sprintf("%08x", sc.Session)
+			for _, r := range cached {
+				if len(r.Header) == 24 {
+					r.Header = r.Header[:8] + sid + r.Header[16:]
+				}
+				want = append(want, r)
+			}
+		} else {
+			want, err = c09Alone(c.World, sc)
+			if c.CacheAlone {
+				aloneCache[ck] = want
+			}
+		}
 		if err != nil {
 			t.Fatalf("%v", err)
 		}
@@ -600,7 +630,7 @@ func TestC09EnumScale(t *testing.T) {
 		n = 70000
 	}
 	c := rapid.Custom(func(rt *rapid.T) c09Case {
-		c := c09Case{World: cfggen.GenWorld(rt), Mode: "mux"}
+		c := c09Case{World: cfggen.GenWorld(rt), Mode: "mux", CacheAlone: n > 12000}
 		for i := 0; i < n; i++ {
 			// three in four are logins that wait for a continuation
 			var sc c09Script
